@@ -26,9 +26,9 @@ m = {
     "setup_cmd": "sh tools/setup.sh",
     "hooks": {
         "guard": "verif",
-        "enable": "no build-tag hooks are needed: harnesses, the verif runtime package and the generated protobuf code are injected by go build overlays (-overlay / packages.Config.Overlay); /repo is only changed by fix: commits",
+        "enable": "go test -tags verif (native replays of schedule counterexamples force the passage order at verifhook.Point call sites); symbolic runs need no tag: gosym intercepts verifhook.Point by name. Harnesses, the verif runtime package and generated protobuf code are injected by build overlays",
         "baseline_off_cmd": "cd /repo && go test -vet=off -count=1 ./batching/... ./dkv/... ./storage/locations/... ./storage/objstore/... ./util/...",
-        "source_commits": [],
+        "source_commits": json.load(open(os.path.join(root, "tools", "hooks.json"))),
         "add_only": True,
     },
     "engines": [{"name": "gosym", "path": "/verif/engine", "serves_properties": [c["property_id"] for c in checks],
